@@ -385,7 +385,7 @@ fn mutate(rng: &mut Rng, b: &mut Vec<u8>) {
 }
 
 /// which op families the generator emits (the IPHC ones once Model/WireIphc.v exists)
-const WITH_IPHC: bool = false;
+const WITH_IPHC: bool = true;
 
 fn gen_wire_op(rng: &mut Rng) -> String {
     match rng.below(if WITH_IPHC { 12 } else { 8 }) {
